@@ -25,10 +25,12 @@ def run(chk, ctx):
         it = run_.interp
         multi = multipass(run_)
         fin = finality(run_)
-        for rec in it.yields:
+        for rec in recs(it):
             st, cons = rec.state, ycons(run_, rec)
             cfg = run_.cfg_text()
             ef = st.enum_single("$ef")
+            if rec.early and rec.kind != "Reverse":
+                continue
             conv = run_.owner == CONVERTER
             if conv and rec.kind in ("Reverse", "Copy", "Move", "EndReverse"):
                 chk.note("C02.PHASE typestate is not decided for the converter: whether a Read/Backward precedes the "
@@ -48,6 +50,8 @@ def run(chk, ctx):
                 tri(chk, "C02.PHASE", cons, prove_eq(st, N - M), run_, rec, "forward position at EndForward: n - max_n")
             if rec.kind == "Reverse":
                 hi, lo = rec.arg(0, "n1"), rec.arg(1, "n0")
+                if not (is_lin(hi) and is_lin(lo)) and rec.early:
+                    continue
                 if not (is_lin(hi) and is_lin(lo)):
                     chk.decide("C02.CONTIG", cons, None, "non-integer bounds", rel=run_.rel, node=rec.node)
                     continue
